@@ -58,6 +58,15 @@ WitnessClauses(r) ==
        <<"encode-succeeds", r.tokRaised = "" => r.codecIdentity>>,
        <<"wanted-token-emitted", (r.tokRaised = "" /\ r.allKeys) => \E i \in DOMAIN r.parsed : r.parsed[i] = r.want>> >>
 
+(* C02 closure: whatever input tokenise ACCEPTS, every emitted token is a vocabulary member that encodes and detokenises;
+   an input may be rejected, but only with the tokeniser's own error *)
+ClosureClauses(r) ==
+    LET accepted == r.tokRaised = "" IN
+    << <<"rejects-only-with-tokenisation-error", r.tokRaised \in {"", "TokenisationException"}>>,
+       <<"emitted-tokens-in-vocabulary", accepted => r.allKeys>>,
+       <<"encode-decode-identity", (accepted /\ r.allKeys) => r.codecIdentity>>,
+       <<"accepted-by-detokenise", (accepted /\ r.allKeys) => r.detokRaised = "">> >>
+
 (* C03: r.chunked / r.single are detokenised outputs [tracks, marks, sigs, durs] *)
 InForceAt(sigs, t) == LET here == SelectSeq(sigs, LAMBDA q : q[1] <= t) IN
                       IF here = <<>> THEN <<4, 4>> ELSE <<here[Len(here)][2], here[Len(here)][3]>>
@@ -92,6 +101,7 @@ InfoClauses(r) ==
 Verdict(r) == CASE r.kind = "roundtrip" -> Fails(RoundTripClauses(r))
                 [] r.kind = "vocab" -> Fails(VocabClauses(r))
                 [] r.kind = "witness" -> Fails(WitnessClauses(r))
+                [] r.kind = "closure" -> Fails(ClosureClauses(r))
                 [] r.kind = "chunk" -> Fails(ChunkClauses(r))
                 [] r.kind = "info" -> Fails(InfoClauses(r))
                 [] OTHER -> <<"unknown-line-kind">>
